@@ -42,11 +42,11 @@ Theorem C04_new_and_reset_well_formed :
 Proof. split; [exact tok_new_wf|exact tok_reset_wf]. Qed.
 Print Assumptions C04_new_and_reset_well_formed.
 
-Theorem C04_success_at_depth_pos_witness :
-  exists t t' v, tok_new 32 false false false = Some t /\
-    parse_ex_cstr (fun _ => 0) t [91;49;32;47;42] = PR t' (Some v) /\ v = JInt 1 /\ depth t' = 1.
-Proof. exact success_at_depth_pos_witness. Qed.
-Print Assumptions C04_success_at_depth_pos_witness.
+Theorem C04_open_container_at_nul_is_eof :
+  exists t t', tok_new 32 false false false = Some t /\
+    parse_ex_cstr (fun _ => 0) t [91;49;32;47;42] = PR t' None /\ err t' = TE_eof.
+Proof. exact open_container_at_nul_is_eof. Qed.
+Print Assumptions C04_open_container_at_nul_is_eof.
 
 (* reset: the level stack, depth and error of a reset parser are those of a new one ... *)
 Theorem C04_reset_levels_as_new : forall t,
